@@ -1,4 +1,5 @@
 import Cellml.C06.CaseFree
+import Cellml.C06.Meta
 
 /-! # C06 — changing the units of a model variable never changes what the model computes
 
@@ -53,8 +54,160 @@ theorem convert_var_wf {s : CState} (hwf : WF s) (v : Nat) (hv : v < s.vars.leng
       exact ⟨this, this.inv.notRaised⟩
 
 /-- `get_unique_name` answers a name that no variable of the model has: `…_converted` / `…_orig_deriv`, with as many
-    `_a` suffixes as needed, never clash -/
-theorem convert_var_names_fresh (s : CState) (base : String) : freshName s base ∉ names s := freshName_fresh s base
+    `_a` suffixes as needed, never clash — and so the variable names of the model stay distinct through
+    `convert_variable`, whatever it has to create (any state, no invariant needed) -/
+theorem convert_var_names_fresh (s : CState) (v : Nat) (hv : v < s.vars.length) (u : U) (cf : Rat) (dir : Dir)
+    (move : Bool) :
+    (∀ base, freshName s base ∉ names s) ∧
+    ((names s).Nodup → (names (convertVariable s v u cf dir move).1).Nodup) :=
+  ⟨freshName_fresh s, keeps_convertVariable s v hv u cf dir move⟩
+
+-- ================================================================================================ metadata
+/-- **Initial values and annotations move as documented** (any state, no invariant needed). With `n` the number of
+    variables before the call and `s'` the model after it: variable `n` is the new one — fresh name, the requested
+    units, initial value `cf ·` the original's for INPUT and none for OUTPUT, the cmeta id of the original if
+    annotations are moved; the original keeps name and units, loses its initial value for INPUT (keeps it for OUTPUT)
+    and loses its cmeta id iff annotations are moved; every other pre-existing variable is untouched; the cmeta id
+    now looks up the new variable (or the map is untouched). -/
+theorem convert_var_meta (s : CState) (v : Nat) (hv : v < s.vars.length) (u : U) (cf : Rat) (hcf : cf ≠ 1) (dir : Dir)
+    (move : Bool) :
+    (convertVariable s v u cf dir move).1.vars[s.vars.length]? =
+      some ⟨freshName s (nameOfV s v ++ "_converted"), u,
+            (match dir with | .input => (initOfV s v).map (· * cf) | .output => none),
+            if move then cmetaOfV s v else none⟩ ∧
+    (convertVariable s v u cf dir move).1.vars[v]? =
+      (s.vars[v]?).map (fun y => ⟨y.name, y.unit, (match dir with | .input => none | .output => y.init),
+                                  if move then none else y.cmeta⟩) ∧
+    (∀ i, i < s.vars.length → i ≠ v → (convertVariable s v u cf dir move).1.vars[i]? = s.vars[i]?) ∧
+    (∀ c, move = true → cmetaOfV s v = some c →
+      (convertVariable s v u cf dir move).1.cmetaMap.lookup c = some s.vars.length) ∧
+    ((move = false ∨ cmetaOfV s v = none) → (convertVariable s v u cf dir move).1.cmetaMap = s.cmetaMap) := by
+  obtain ⟨⟨l, hl⟩, hcm⟩ := ext_convertVariable s v u cf dir move hcf
+  obtain ⟨iv, icm⟩ := convertInstance_vars s v hv cf u dir move
+  obtain ⟨g1, g2, g3⟩ := getElem?_varsAfterTransfer s v hv (newVar s v u cf dir) rfl move
+  have hlen : (convertInstance s v cf u dir move).1.vars.length = s.vars.length + 1 := by
+    rw [iv]; cases dir <;> simp [length_setV, length_varsAfterTransfer]
+  have hget : ∀ i, i < s.vars.length + 1 →
+      (convertVariable s v u cf dir move).1.vars[i]? = (convertInstance s v cf u dir move).1.vars[i]? := by
+    intro i hi; rw [hl]; exact List.getElem?_append_left (by rw [hlen]; exact hi)
+  have hvn : v ≠ s.vars.length := by omega
+  refine ⟨?_, ?_, ?_, ?_, ?_⟩
+  · rw [hget _ (by omega), iv]
+    cases dir with
+    | input => rw [getElem?_setV, if_neg (Ne.symm hvn), g1]; rfl
+    | output => rw [g1]; rfl
+  · rw [hget _ (by omega), iv]
+    cases dir with
+    | input => rw [getElem?_setV, if_pos rfl, g2]; cases s.vars[v]? <;> rfl
+    | output => rw [g2]
+  · intro i hi hiv
+    rw [hget _ (by omega), iv]
+    cases dir with
+    | input => rw [getElem?_setV, if_neg hiv, g3 i hi hiv]
+    | output => exact g3 i hi hiv
+  · intro c hm hc
+    rw [hcm, icm, hc, hm]
+    simp only
+    rw [lookup_insertKey, if_pos rfl]
+  · intro h
+    rw [hcm, icm]
+    rcases h with h | h
+    · rw [h]; cases cmetaOfV s v <;> rfl
+    · rw [h]
+
+-- ================================================================================================ sequences
+/-- the arguments of one call -/
+structure Call where
+  v : Nat
+  u : U
+  cf : Rat
+  dir : Dir
+  move : Bool
+
+/-- a sequence of calls: the final model and the variables the calls returned -/
+def runSeq (s : CState) : List Call → CState × List Nat
+  | [] => (s, [])
+  | a :: rest =>
+      ((runSeq (convertVariable s a.v a.u a.cf a.dir a.move).1 rest).1,
+       (convertVariable s a.v a.u a.cf a.dir a.move).2.1 :: (runSeq (convertVariable s a.v a.u a.cf a.dir a.move).1 rest).2)
+
+/-- each call converts a variable that exists when the call is made, with a non-zero factor -/
+def ValidSeq (I : Interp K) (s : CState) : List Call → Prop
+  | [] => True
+  | a :: rest => a.v < s.vars.length ∧ I.lit a.cf ≠ 0 ∧ ValidSeq I (convertVariable s a.v a.u a.cf a.dir a.move).1 rest
+
+/-- every returned variable carries `cf ·` the value of the variable it was converted from -/
+def Chain (I : Interp K) (τ : Val K) : List Call → List Nat → Prop
+  | a :: rest, r :: rets => τ.v r = I.lit a.cf * τ.v a.v ∧ Chain I τ rest rets
+  | [], [] => True
+  | _, _ => False
+
+theorem chain_congr (I : Interp K) (τ τ' : Val K) (hv : τ'.v = τ.v) : ∀ (cs : List Call) (rs : List Nat),
+    Chain I τ cs rs → Chain I τ' cs rs
+  | a :: rest, r :: rets, h => ⟨by rw [hv]; exact h.1, chain_congr I τ τ' hv rest rets h.2⟩
+  | [], [], _ => trivial
+  | [], _ :: _, h => h.elim
+  | _ :: _, [], h => h.elim
+
+/-- **Any sequence of conversions** (state then time, time then state, the same quantity twice, …): the final model is
+    well-formed, every point solution of the first model extends to one of the last that agrees on every pre-existing
+    variable and derivative and in which every returned variable is `cf ·` its original — so a variable converted
+    twice carries the product of the factors (`convert_var_twice`) —, and every point solution of the last model gives
+    one of the first with the same values of all variables. Induction on the list: any length. -/
+theorem convert_var_seq (I : Interp K) (hI1 : I.lit 1 = 1) : ∀ (cs : List Call) (s : CState), WF s → ValidSeq I s cs →
+    WF (runSeq s cs).1 ∧ s.vars.length ≤ (runSeq s cs).1.vars.length ∧
+    (∀ σ : Val K, Sat I σ s → ∃ σ' : Val K, Sat I σ' (runSeq s cs).1 ∧ Agree s.vars.length σ σ' ∧
+        Chain I σ' cs (runSeq s cs).2) ∧
+    (∀ σ' : Val K, Sat I σ' (runSeq s cs).1 → ∃ σ : Val K, Sat I σ s ∧ σ.v = σ'.v ∧ Chain I σ' cs (runSeq s cs).2) := by
+  intro cs
+  induction cs with
+  | nil =>
+    intro s hwf _
+    exact ⟨hwf, Nat.le_refl _, fun σ hσ => ⟨σ, hσ, Agree.refl _ _, trivial⟩, fun σ' hσ' => ⟨σ', hσ', rfl, trivial⟩⟩
+  | cons a rest ih =>
+    intro s hwf hval
+    obtain ⟨hv, hcf, hrest⟩ := hval
+    by_cases hcf1 : a.cf = 1
+    · -- nothing happens
+      have hno : convertVariable s a.v a.u a.cf a.dir a.move = (s, a.v, []) := by rw [hcf1]; exact convertVariable_noop ..
+      simp only [runSeq, hno] at hrest ⊢
+      obtain ⟨i1, i2, i3, i4⟩ := ih s hwf (by simpa [hno] using hrest)
+      refine ⟨i1, i2, ?_, ?_⟩
+      · intro σ hσ
+        obtain ⟨σ', h1, h2, h3⟩ := i3 σ hσ
+        exact ⟨σ', h1, h2, by rw [hcf1, hI1, one_mul], h3⟩
+      · intro σ' hσ'
+        obtain ⟨σ, h1, h2, h3⟩ := i4 σ' hσ'
+        exact ⟨σ, h1, h2, by rw [hcf1, hI1, one_mul], h3⟩
+    · have hc := convert_var_sound I hwf a.v hv a.u a.cf hcf1 hcf a.dir a.move
+      simp only [runSeq]
+      generalize convertVariable s a.v a.u a.cf a.dir a.move = r at hc hrest ⊢
+      obtain ⟨i1, i2, i3, i4⟩ := ih r.1 hc.wf hrest
+      refine ⟨i1, by have := hc.grows; omega, ?_, ?_⟩
+      · intro σ hσ
+        obtain ⟨σ1, a1, a2, a3, _, _⟩ := hc.fwd σ hσ
+        obtain ⟨σ', b1, b2, b3⟩ := i3 σ1 a1
+        refine ⟨σ', b1, a2.trans b2 (Nat.le_of_lt hc.grows), ?_, b3⟩
+        rw [b2.1 r.2.1 (by rw [hc.ret]; exact hc.grows), b2.1 a.v (Nat.lt_trans hv hc.grows), a3, a2.1 a.v hv]
+      · intro σ' hσ'
+        obtain ⟨σ1, b1, b2, b3⟩ := i4 σ' hσ'
+        obtain ⟨c1, c2, _⟩ := hc.bwd σ1 b1
+        refine ⟨pull r.2.2 σ1, c1, b2, ?_, b3⟩
+        rw [← b2]; exact c2
+
+/-- converting a variable and then the result of that conversion: the last variable is the original times the
+    product of the two factors, in a solution that extends the given one -/
+theorem convert_var_twice (I : Interp K) (hI1 : I.lit 1 = 1) {s : CState} (hwf : WF s) (a b : Call)
+    (hb : b.v = (convertVariable s a.v a.u a.cf a.dir a.move).2.1) (hval : ValidSeq I s [a, b]) (σ : Val K)
+    (hσ : Sat I σ s) :
+    ∃ σ' : Val K, Sat I σ' (runSeq s [a, b]).1 ∧ Agree s.vars.length σ σ' ∧
+      ∃ r ∈ (runSeq s [a, b]).2, σ'.v r = I.lit b.cf * I.lit a.cf * σ.v a.v := by
+  obtain ⟨_, _, h3, _⟩ := convert_var_seq I hI1 [a, b] s hwf hval
+  obtain ⟨σ', h1, h2, hc⟩ := h3 σ hσ
+  refine ⟨σ', h1, h2, _, List.mem_cons_of_mem _ (List.mem_cons_self ..), ?_⟩
+  simp only [runSeq, Chain] at hc
+  obtain ⟨c1, c2, _⟩ := hc
+  rw [c2, hb, c1, h2.1 a.v hval.1]; ring
 
 -- ================================================================================================ non-vacuity
 /-! The model of the docstring of `convert_variable`:
@@ -75,17 +228,21 @@ def demo0 : CState :=
 def demo : CState := addEq demo0 demoOde true
 
 theorem demo0_inv : Inv0 demo0 :=
-  { notRaised := rfl, scopedE := fun _ h => by cases h, keys := List.nodup_nil, vdKeys := List.nodup_nil,
-    odKeys := List.nodup_nil, vd := fun _ _ => ⟨fun h => by cases h, fun h => by cases h.1⟩,
-    od := fun _ _ => ⟨fun h => by cases h, fun h => by cases h.1⟩ }
+  { notRaised := rfl, scopedE := fun _ h => (by cases h), keys := List.nodup_nil, vdKeys := List.nodup_nil,
+    odKeys := List.nodup_nil, vd := fun _ _ => ⟨fun h => (by cases h), fun h => (by cases h.1)⟩,
+    od := fun _ _ => ⟨fun h => (by cases h), fun h => (by cases h.1)⟩ }
+
+theorem demoOde_scoped : EqScoped demo0.vars.length demoOde := by
+  intro i hi
+  simp only [demoOde, CEqn.allVars, CLhs.vars, X.vars, List.append_nil, List.mem_cons, List.not_mem_nil,
+    or_false] at hi
+  rcases hi with rfl | rfl <;> decide
 
 theorem demo_eqs : demo.equations = [demoOde] :=
-  (addEq_ok demo0_inv demoOde true (by intro i hi; simp [demoOde, CEqn.allVars, CLhs.vars, X.vars] at hi;
-    rcases hi with rfl | rfl <;> decide) (fun _ h => by cases h) (fun _ _ h => by cases h)).1
+  (addEq_ok demo0_inv demoOde true demoOde_scoped (fun _ h => (by cases h)) (fun _ _ h => (by cases h))).1
 
 theorem demo_wf : WF demo := by
-  have h := addEq_ok demo0_inv demoOde true (by intro i hi; simp [demoOde, CEqn.allVars, CLhs.vars, X.vars] at hi;
-    rcases hi with rfl | rfl <;> decide) (fun _ h => by cases h) (fun _ _ h => by cases h)
+  have h := addEq_ok demo0_inv demoOde true demoOde_scoped (fun _ h => (by cases h)) (fun _ _ h => (by cases h))
   refine ⟨h.2.2.2, ?_, ?_, ?_⟩
   · rw [demo_eqs]; intro e₁ h₁ e₂ h₂ v x t hv _
     simp only [List.mem_cons, List.not_mem_nil, or_false] at h₁; subst h₁; cases hv
@@ -118,10 +275,10 @@ example : ((convertVariable demo 0 uSec (1/1000) .input true).1.vars.map fun x =
 /-- the hypotheses of `convert_var_sound` are met by the docstring's model, and it has point solutions -/
 example : CallOK (K := ℚ) ⟨fun q => q, fun _ x => x, fun _ x _ => x⟩ demo 1 (1/1000) .input
     (convertVariable demo 1 uVolt (1/1000) .input true) :=
-  convert_var_sound _ demo_wf 1 (by decide) uVolt (1/1000) (by decide) (by norm_num) .input true
+  convert_var_sound _ demo_wf 1 (by decide) uVolt (1/1000) (by decide +kernel) (by decide +kernel) .input true
 example : CallOK (K := ℚ) ⟨fun q => q, fun _ x => x, fun _ x _ => x⟩ demo 0 (1/1000) .input
     (convertVariable demo 0 uSec (1/1000) .input true) :=
-  convert_var_sound _ demo_wf 0 (by decide) uSec (1/1000) (by decide) (by norm_num) .input true
+  convert_var_sound _ demo_wf 0 (by decide) uSec (1/1000) (by decide +kernel) (by decide +kernel) .input true
 example : Sat (K := ℚ) ⟨fun q => q, fun _ x => x, fun _ x _ => x⟩ ⟨fun _ => 5, fun _ _ => 1⟩ demo := by
   unfold Sat; rw [demo_eqs]; intro e he
   simp only [List.mem_cons, List.not_mem_nil, or_false] at he; subst he
